@@ -116,6 +116,69 @@ def listens_on(pid, port):
     return False
 
 
+class WsClient:
+    """a minimal WebSocket JSON-RPC client (RFC 6455 text frames, client side masked): the Emacs client talks to the server this way"""
+    def __init__(self, port, timeout=10.0):
+        import base64
+        self.sock = socket.create_connection(("127.0.0.1", port), timeout=timeout)
+        key = base64.b64encode(os.urandom(16)).decode()
+        self.sock.sendall((f"GET / HTTP/1.1\r\nHost: 127.0.0.1:{port}\r\nUpgrade: websocket\r\nConnection: Upgrade\r\n"
+                           f"Sec-WebSocket-Key: {key}\r\nSec-WebSocket-Version: 13\r\n\r\n").encode())
+        buf = b""
+        while b"\r\n\r\n" not in buf:
+            c = self.sock.recv(4096)
+            if not c:
+                break
+            buf += c
+        self.status = buf.split(b"\r\n", 1)[0].decode("latin1")
+        self.ok = " 101 " in self.status
+        self.rest = buf.split(b"\r\n\r\n", 1)[1] if b"\r\n\r\n" in buf else b""
+        self.id = 0
+
+    def _recv(self, n):
+        while len(self.rest) < n:
+            c = self.sock.recv(65536)
+            if not c:
+                raise OSError("closed")
+            self.rest += c
+        out, self.rest = self.rest[:n], self.rest[n:]
+        return out
+
+    def call(self, method, params):
+        """('ok', result) | ('error', e) | ('closed', msg)"""
+        import struct
+        self.id += 1
+        payload = json.dumps({"jsonrpc": "2.0", "id": self.id, "method": method, "params": params}, ensure_ascii=False).encode("utf-8")
+        mask = os.urandom(4)
+        hdr = bytes([0x81])
+        n = len(payload)
+        hdr += bytes([0x80 | n]) if n < 126 else (bytes([0x80 | 126]) + struct.pack(">H", n) if n < 65536 else bytes([0x80 | 127]) + struct.pack(">Q", n))
+        try:
+            self.sock.sendall(hdr + mask + bytes(b ^ mask[i % 4] for i, b in enumerate(payload)))
+            while True:
+                b0, b1 = self._recv(2)
+                ln = b1 & 0x7F
+                if ln == 126:
+                    ln = struct.unpack(">H", self._recv(2))[0]
+                elif ln == 127:
+                    ln = struct.unpack(">Q", self._recv(8))[0]
+                data = self._recv(ln)
+                if b0 & 0x0F == 0x1:
+                    break
+                if b0 & 0x0F == 0x8:
+                    return ("closed", "close frame")
+        except (OSError, socket.timeout) as e:
+            return ("closed", str(e))
+        j = json.loads(data)
+        return ("ok", j["result"]) if "result" in j else ("error", j.get("error"))
+
+    def close(self):
+        try:
+            self.sock.close()
+        except OSError:
+            pass
+
+
 class Server:
     def __init__(self, dictionary, user_dir=None, workers=None, save_seconds=None, env=None, wait=True):
         e = dict(os.environ)
